@@ -134,7 +134,7 @@ Print Assumptions C10_bad_reply_consumed.
    not well-formed) empty; every other object j < f holds exactly the server's j-th reply,
    the objects handed out are increasing object numbers, the unread ones are the
    reply_queue in order, the stream continues right behind reply f-1, EOF is never read.
-   (AttributeError can only come from LmtpClient.send_data, see the refuted theorem.) *)
+   (No call raises AttributeError: result_ok_gen excludes it.) *)
 Theorem C10_pairing_with_bad_replies :
   forall udigit uspace script extra lmtp exts0 ops chunks st results,
   forallb script_ok script = true ->
@@ -158,8 +158,8 @@ Theorem C10_pairing_with_bad_replies :
 Proof. intros. eapply cl_pairing_gen; eassumption. Qed.
 Print Assumptions C10_pairing_with_bad_replies.
 
-(* With such scripts a raising call is still a no-op when it raises before the wire; the two
-   exceptions raised after the wire (BadReply, AttributeError) need an undecodable reply. *)
+(* With such scripts a raising call is still a no-op when it raises before the wire; the
+   only exception raised after the wire is the BadReply of an undecodable reply. *)
 Theorem C10_raise_partial :
   forall udigit uspace script extra lmtp exts0 ops chunks st results o st' e,
   forallb script_ok script = true ->
@@ -169,30 +169,35 @@ Theorem C10_raise_partial :
   step udigit uspace o st = (st', RExn e) ->
   length (s_objs st') <= length script ->
   (e = XEncode \/ e = XNotImpl) /\ st' = st \/
-  (e = XBadReply \/ e = XAttr) /\ (exists j, j < length script /\ wf_reply (nth j script dflt) = false).
+  e = XBadReply /\ (exists j, j < length script /\ wf_reply (nth j script dflt) = false).
 Proof. intros. eapply cl_raise_gen; eassumption. Qed.
 Print Assumptions C10_raise_partial.
 
-(* Known finding c10:lmtp-data-after-bad-rcpt-reply.  "A raising call leaves no reply slot
-   without its command" (C10_raise_is_noop) is FALSE once replies may be undecodable:
-   LmtpClient.send_data, looking at a pipelined RCPT whose reply was a BadReply (code None),
-   raises AttributeError after it has queued end-of-data slots for the recipients before it,
-   with nothing in the send buffer and the recipient list not cleared. *)
-Theorem C10_lmtp_unanswered_rcpt_refuted :
-  exists udigit uspace script exts0 ops chunks st results st',
-  forallb script_ok script = true /\
-  run udigit uspace ops (init true exts0 chunks) = (st, results) /\
-  concat chunks = wire script /\
-  step udigit uspace OSendEmpty st = (st', RExn XAttr) /\
-  length (s_objs st') <= length script /\
-  s_queue st' = [5] /\ o_cmd (nth 5 (s_objs st') dummy_obj) = bs "[SEND_DATA]" /\
-  s_sendbuf st' = [] /\ s_sent st' = s_sent st /\ s_rcpttos st' <> [].
-Proof.
-  exists ex_udigit, ex_uspace, ex_fscript, [], ex_fops, [wire ex_fscript].
-  pose proof cl_lmtp_unanswered_rcpt_witness as W.
-  destruct (run ex_udigit ex_uspace ex_fops (init true [] [wire ex_fscript])) as [st results] eqn:Er.
-  destruct (step ex_udigit ex_uspace OSendEmpty st) as [st' res] eqn:Es.
-  destruct W as (W0 & W1 & W2 & W3 & W4 & W5 & W6 & W7 & W8). subst res.
-  exists st, results, st'. repeat split; try assumption.
-Qed.
-Print Assumptions C10_lmtp_unanswered_rcpt_refuted.
+(* The statement the former known finding c10:lmtp-data-after-bad-rcpt-reply refuted, true since
+   fix d40 (`if rcptto_reply.code and rcptto_reply.code.startswith('2')`): LmtpClient.send_data /
+   send_empty_data after ANY history and for ANY script (undecodable replies included) queue
+   exactly one end-of-data slot per recipient of the transaction whose RCPT reply is a filled 2xx
+   - a recipient whose RCPT reply was a BadReply holds an empty Reply and gets none -, in the order
+   of the rcptto calls, as the consecutive new objects n, n+1, ..., and clear the recipient list.
+   They never raise AttributeError; the only exception possible is the BadReply of an undecodable
+   reply that one of their two flushes had to read (before any slot was queued: nothing changed but
+   the replies read; or after: slots queued, list cleared). *)
+Theorem C10_lmtp_data_never_fails_on_unanswered_rcpt :
+  forall udigit uspace script extra exts0 ops chunks st results o st' res,
+  forallb script_ok script = true ->
+  Forall (fun c => c <> []) chunks ->
+  concat chunks = wire script ++ extra ->
+  run udigit uspace ops (init true exts0 chunks) = (st, results) ->
+  (o = OSendEmpty \/ exists payload, o = OSendData payload) ->
+  step udigit uspace o st = (st', res) ->
+  length (s_objs st') <= length script ->
+  let n := length (s_objs st) in
+  let acc := filter (fun p => wf_reply (nth (snd p) script dflt) &&
+                              class2 (fst (nth (snd p) script dflt))) (s_rcpttos st) in
+  (res = RPairs (number n (map fst acc)) /\
+   length (s_objs st') = n + length acc /\ s_rcpttos st' = []) \/
+  (res = RExn XBadReply /\
+   ((s_rcpttos st' = s_rcpttos st /\ length (s_objs st') = n) \/
+    (s_rcpttos st' = [] /\ length (s_objs st') = n + length acc))).
+Proof. intros. eapply cl_lmtp_pairing_gen; eassumption. Qed.
+Print Assumptions C10_lmtp_data_never_fails_on_unanswered_rcpt.
